@@ -10,11 +10,14 @@ PROPS["C09"] = {
     "assumptions": ["engine/refmsgpack.hpp (independent encoder/decoder written from the MessagePack specification) is the oracle; "
                     "the pair is self-checked on every encoding (decoder inverts encoder; proper prefixes are incomplete)",
                     "NoMemory is accepted when the (possibly corrupted) input announces a str/bin/ext longer than the 65535-byte string limit",
-                    "integers outside the configured range cannot be exercised on this 64-bit host (long long is always available)"],
-    "quick": [dict(_C09), dict(_C09, defs=["ARDUINOJSON_USE_DOUBLE=0"], quick_args=["--nodes=1", "--nonminimal=1"]),
+                    "ARDUINOJSON_USE_LONG_LONG=0 job: JsonInteger is still 64 bits wide on this host, but the document has 32-bit integer storage only; "
+                    "an integer outside [-2^31, 2^32) must then decode to null (never to a wrong number)"],
+    "quick": [dict(_C09), dict(_C09, defs=["ARDUINOJSON_USE_DOUBLE=0"], quick_args=["--nodes=2", "--nonminimal=1"]),
+              dict(_C09, defs=["ARDUINOJSON_USE_LONG_LONG=0"], quick_args=["--nodes=2", "--nonminimal=1"]),
               # a small non-power-of-two pool geometry with 2-byte slot ids: same inputs, same values
-              dict(_C09, defs=["ARDUINOJSON_SLOT_ID_SIZE=2", "ARDUINOJSON_POOL_CAPACITY=7", "ARDUINOJSON_INITIAL_POOL_COUNT=3"], quick_args=["--nodes=2", "--nonminimal=1"])],
+              dict(_C09, defs=["ARDUINOJSON_SLOT_ID_SIZE=2", "ARDUINOJSON_POOL_CAPACITY=2", "ARDUINOJSON_INITIAL_POOL_COUNT=3"], quick_args=["--nodes=2", "--nonminimal=1"])],
     "thorough": [dict(_C09, thorough_args=["--nodes=3", "--nonminimal=2"]),
-                 dict(_C09, defs=["ARDUINOJSON_USE_DOUBLE=0"], thorough_args=["--nodes=2", "--nonminimal=2"])],
+                 dict(_C09, defs=["ARDUINOJSON_USE_DOUBLE=0"], thorough_args=["--nodes=2", "--nonminimal=2"]),
+                 dict(_C09, defs=["ARDUINOJSON_USE_LONG_LONG=0"], thorough_args=["--nodes=2", "--nonminimal=2"])],
     "thorough_deadline": 1500,
 }
